@@ -28,6 +28,7 @@ fn main() {
         };
         let toks = cxmon::guard(|| cxmon::run_line(body));
         writeln!(out, "{} {}", i, toks.join(" ")).unwrap();
+        out.flush().unwrap();
     }
     out.flush().unwrap();
 }
